@@ -650,6 +650,10 @@ func (c *FnCtx) callByContract(st *State, fs *FuncSpec, sig *types.Signature, re
 			c.assume(st, sImp(cond, concl))
 		}
 	}
+	// interface method: what each known implementation guarantees for its own dynamic type
+	if recv != nil && recv.K == KIfc && sig.Recv() != nil && isIfaceType(sig.Recv().Type()) {
+		c.assumeImplementerFacts(st, old, key, sig, recv, args, results)
+	}
 	switch nres {
 	case 0:
 		return Val{K: KUnit}
@@ -657,6 +661,84 @@ func (c *FnCtx) callByContract(st *State, fs *FuncSpec, sig *types.Signature, re
 		return results[0]
 	}
 	return Val{K: KTuple, F: results}
+}
+
+// assumeImplementerFacts: for an interface call resolved by the interface's contract, also
+// assume "dynamic type is T and T's precondition holds ==> T's postcondition" for every
+// implementation T whose method is under contract (including its case contracts).
+func (c *FnCtx) assumeImplementerFacts(st, old *State, ikey string, sig *types.Signature, recv *Val, args []Val, results []Val) {
+	it, ok := sig.Recv().Type().Underlying().(*types.Interface)
+	if !ok {
+		return
+	}
+	mname := ikey[strings.LastIndex(ikey, ".")+1:]
+	for _, n := range c.w.named {
+		var t types.Type = n
+		if !types.Implements(t, it) {
+			continue
+		}
+		base := n.Obj().Pkg().Name() + "." + n.Obj().Name() + "." + mname
+		var keys []string
+		for k := range c.eng.contracts.Funcs {
+			if k == base || strings.HasPrefix(k, base+"@") {
+				keys = append(keys, k)
+			}
+		}
+		sort.Strings(keys)
+		if len(keys) == 0 {
+			continue
+		}
+		cond0 := c.tagTest(recv.S, t)
+		pv := c.payload(recv.S, t)
+		pv.T = t
+		for _, k := range keys {
+			cs := c.eng.contracts.Funcs[k]
+			if cs.Trusted {
+				if len(cs.Ensures) <= 1 {
+					continue
+				}
+				c.trusted["contract of "+k+" is assumed, not proved: "+cs.TrustWhy] = true
+			} else {
+				c.deps[k] = true
+			}
+			cv := map[string]Val{}
+			if cs.Recv != "" {
+				cv[cs.Recv] = pv
+			}
+			for i, pn := range cs.Params {
+				if i < len(args) {
+					cv[pn] = args[i]
+				}
+			}
+			cpre := &SpecScope{c: c, cur: old, vars: cv}
+			cond := cond0
+			for _, f := range c.typeFacts(pv) {
+				c.assume(st, sImp(cond0, f)) // invariants of the Go type of the payload
+			}
+			for _, r := range cs.Requires {
+				cond = sAnd(cond, cpre.boolOf(r.Expr))
+			}
+			cpost := &SpecScope{c: c, cur: st, old: old, vars: map[string]Val{}, oldVars: cv}
+			for k2, v := range cv {
+				cpost.vars[k2] = v
+			}
+			for i, rn := range cs.Results {
+				if i < len(results) {
+					cpost.vars[rn] = results[i]
+				}
+			}
+			if len(cs.GhostFns) > 0 {
+				continue // ghost results are not transported through interface calls
+			}
+			concl := "true"
+			for _, e := range cs.Ensures {
+				if !e.Local {
+					concl = sAnd(concl, cpost.boolOf(e.Expr))
+				}
+			}
+			c.assume(st, sImp(cond, concl))
+		}
+	}
 }
 
 func (fs *FuncSpec) keyTail() string {
